@@ -1,7 +1,7 @@
 (* Property C09: loading a database yields exactly the records written in the file. *)
 From Coq Require Import String.
 From PV Require Import Model.Prelude Model.Bits Model.Sig Model.Text Model.SigParse Model.DbParse Model.Dump
-  Spec.C01 Spec.C09 Proofs.DbParseP Proofs.DumpP Proofs.LabelsP.
+  Model.Matcher Spec.C01 Spec.C09 Proofs.DbParseP Proofs.DumpP Proofs.LabelsP Proofs.SigTextP.
 
 (* After a successful load, for each of the five sections the records are, in file order, exactly
    the sig lines the scanner attributes to that section: same line number, most recent label (with
@@ -21,6 +21,12 @@ Theorem C09_tcp_sig_ranges : forall t s, parse_tcp_sig t = Ok s ->
   (s_quirks s < 2 ^ 17)%N /\ N.land (s_quirks s) (invalid_for (s_ver s)) = 0%N.
 Proof. exact parse_tcp_sig_wf. Qed.
 Print Assumptions C09_tcp_sig_ranges.
+
+(* C09_sig_roundtrip: every structured TCP signature within the documented ranges denotes exactly what its text
+   denotes in the p0f grammar (every field, wildcard, ttl form, window form, option, quirk) *)
+Theorem C09_sig_roundtrip : forall s, printable s -> parse_tcp_sig (print_tcp_sig s) = Ok s.
+Proof. exact parse_print_tcp_sig. Qed.
+Print Assumptions C09_sig_roundtrip.
 
 (* option layouts and quirk lists denote what their text says (printer/parser round trip) *)
 Theorem C09_layout_text : forall l pad,
